@@ -59,6 +59,10 @@ extra = {"C08": "yes: downloads after an abandoned earlier transfer on the same 
          "R11C10": "yes: transfers of 19 blocks (4100 in the thorough tier) at budgets whose room is the block size -9..+1, longest token, replies with and without options below Block2; the size the handler chose when it fragmented is tracked per key and `C10FollowOk` pins that every later block of that size fits the budget",
          "R11C11": "yes: Uri-Path segments around the 255-byte limit (253..300 bytes, ASCII and with a multi-byte character across offsets 254..257, followed by an empty segment) in hostile requests",
          "R11C20": "yes: a transfer kept busy only by repeats of the last block request (download and upload), each gap 0.3 x expiry, the total 2 x expiry: the next block still comes from the live entry",
+         "R12C05": "yes: class and detail fields that only fit an integer wider than a byte (256, 260, 287, 512, 65540, 2^32+4, 2^64+4, ...) as a second family of MC_CodeText; '4' added to its alphabet",
+         "R12C06": "yes: a setter called with the very value the getter reports while the stored bytes are a padded encoding of it (raw call or peer)",
+         "R12C09": "yes: an upload of 4200 bytes in 16-byte blocks (5000 / 8300 in the thorough tier): block numbers above 255, two-byte Block1 values",
+         "R12C18": "yes: a link's attribute writer dropped without finish() (none / all / alternating links) under every fault position; the last-link clause of the fault judgement only applies to a finished link",
          "R4C12": "yes: the two entry points of an exchange as separate steps with equal message ids on different endpoints (model MODE split, deferred responses in the mixed driver); a disturbed other key is reported under C12 in every branch",
          "C20": "yes: expiry under block-wise traffic on other keys (model `Other` now block-wise; driver scenario `expiry-traffic`)"}
 for d in sorted(glob.glob(os.path.join(ROOT, "seeded", "*", "meta.json"))):
